@@ -134,7 +134,7 @@ package core
 //@ spec func lexRem(l *Lexer) int = rdlen(l.reader) - rdpos(l.reader)
 //@ spec func tokW(t *Token) int = (isnil(t) || t.Type == TokenEOF) ? 0 : 1
 //@ spec func pM(p *Parser) int = 3 * lexRem(p.lexer) + 2 * tokW(p.peekToken) + tokW(p.currentToken)
-//@ spec func cpinv(p *Parser) bool = !isnil(p.lexer) && !isnil(p.lexer.reader) && lexRem(p.lexer) >= 0
+//@ spec func cpinv(p *Parser) bool = !isnil(p.lexer) && !isnil(p.lexer.reader) && lexRem(p.lexer) >= 0 && p.depth >= 0
 
 // ---- the lexer over an ideal byte stream (bufio.Reader model: rddata / rdpos / rdbuf) ----
 //@ spec func lsame(l *Lexer, m *Lexer) bool = same(rddata(l.reader), rddata(m.reader))
@@ -189,11 +189,18 @@ package core
 //@     invariant cpinv(p) && pM(p) <= old(pM(p))
 //@     decreases pM(p)
 
+// arrays and dictionaries nest through ParseObject: the number of open ones is bounded (the recursion depth - and with
+// it the stack - is bounded by maxNestingDepth whatever the file contains) and balanced on every exit
+//@ func (*Parser) enterNested
+//@   flags inline
 //@ func (*Parser) ParseObject results (obj, err)
 //@   property C02
 //@   requires cpinv(p)
+//@   callsite parseArray() requires nesting_is_bounded: 1 <= p.depth && p.depth <= maxNestingDepth
+//@   callsite parseDict() requires nesting_is_bounded: 1 <= p.depth && p.depth <= maxNestingDepth
 //@   decreases pM(p), 1
 //@   ensures cpinv(p) && pM(p) <= old(pM(p))
+//@   ensures nesting_is_balanced: p.depth == old(p.depth)
 //@   ensures progress: !err ==> pM(p) < old(pM(p))
 //@   loop 0:
 //@     invariant 0 <= i && mod(i, 2) == 0 && mod(len(hexStr), 2) == 0 && len(result) == div(len(hexStr), 2) && cpinv(p) && pM(p) <= old(pM(p)) && tokW(p.currentToken) == 1
@@ -219,8 +226,9 @@ package core
 //@   decreases pM(p), 0
 //@   ensures cpinv(p) && pM(p) <= old(pM(p))
 //@   ensures progress: !err ==> pM(p) < old(pM(p))
+//@   ensures nesting_is_balanced: p.depth == old(p.depth)
 //@   loop 0:
-//@     invariant cpinv(p) && pM(p) < old(pM(p))
+//@     invariant cpinv(p) && pM(p) < old(pM(p)) && p.depth == old(p.depth)
 //@     decreases pM(p)
 
 // comments are legal wherever white space is (ISO 32000 7.2.3): the element loop skips them itself, so the closing
@@ -231,8 +239,9 @@ package core
 //@   decreases pM(p), 0
 //@   ensures cpinv(p) && pM(p) <= old(pM(p))
 //@   ensures progress: !err ==> pM(p) < old(pM(p))
+//@   ensures nesting_is_balanced: p.depth == old(p.depth)
 //@   loop 0:
-//@     invariant cpinv(p) && pM(p) < old(pM(p))
+//@     invariant cpinv(p) && pM(p) < old(pM(p)) && p.depth == old(p.depth)
 //@     decreases pM(p)
 
 //@ func NewLexer results (l)
